@@ -34,20 +34,21 @@ import (
 )
 
 const (
-	fNone    = "none"
-	fWriteA  = "writeA"
-	fWriteB  = "writeB"
-	fReplA   = "replaceA" // write temp file + rename over the config (atomic replace)
-	fReplB   = "replaceB"
-	fDelete  = "delete"
-	nNone    = "-"        // no notification involved (only with fNone)
-	nDeliver = "delivered"
-	nDrop    = "dropped"
-	nDup     = "duplicated"
-	nDelay   = "delayed"  // delivered after the NEXT step's file operation
-	nErr     = "watcher-error"
-	nClosed  = "events-closed"
-	nDirGone = "dir-removed-event"
+	fNone      = "none"
+	fWriteA    = "writeA"
+	fWriteB    = "writeB"
+	fReplA     = "replaceA" // write temp file + rename over the config (atomic replace)
+	fReplB     = "replaceB"
+	fDelete    = "delete"
+	nNone      = "-" // no notification involved (only with fNone)
+	nDeliver   = "delivered"
+	nDrop      = "dropped"
+	nDup       = "duplicated"
+	nDelay     = "delayed" // delivered after the NEXT step's file operation
+	nErr       = "watcher-error"
+	nClosed    = "events-closed"
+	nErrClosed = "errors-closed" // the watcher's Errors() channel is closed
+	nDirGone   = "dir-removed-event"
 )
 
 type step struct {
@@ -58,11 +59,20 @@ type step struct {
 	// watcher: "" / "ok" = succeeds, "fail1" = the next attempt fails, "fail" = every further
 	// attempt fails (e.g. inotify limits, directory not back).
 	Recreate string `json:"recreate,omitempty"`
+	// Cb arms a one-shot action for the NEXT callback invocation: after the callback has read the
+	// file ("evaluated" it) and before it returns, the file is rewritten (writeA / writeB), i.e.
+	// the content changes while an evaluation is in progress. CbNotify: that change's
+	// notification is delivered or dropped.
+	Cb       string `json:"cb,omitempty"`
+	CbNotify string `json:"cb_notify,omitempty"`
 }
 
 func (s step) String() string {
 	if s.Recreate != "" {
 		return fmt.Sprintf("%s/%s(recreate:%s)/+%dms", s.File, s.Notify, s.Recreate, s.Adv)
+	}
+	if s.Cb != "" {
+		return fmt.Sprintf("%s/%s[during-callback:%s/%s]/+%dms", s.File, s.Notify, s.Cb, s.CbNotify, s.Adv)
 	}
 	return fmt.Sprintf("%s/%s/+%dms", s.File, s.Notify, s.Adv)
 }
@@ -83,6 +93,7 @@ type scenario struct {
 	CbErr    bool   // callback rejects every candidate
 	Replace  bool   // use atomic replace instead of in-place writes
 	Faults   bool   // watcher-drop scenario: reduced notification alphabet + scripted re-creation
+	CbWrites bool   // the file changes while the callback is running
 	Advances []int
 }
 
@@ -116,6 +127,25 @@ func alphabet(sc scenario, thorough bool) []step {
 					ops = append(ops, step{File: fNone, Notify: trig, Adv: adv, Recreate: rc})
 				}
 			}
+			for _, rc := range []string{"ok", "fail"} {
+				ops = append(ops, step{File: fNone, Notify: nErrClosed, Adv: adv, Recreate: rc})
+			}
+		}
+		return ops
+	}
+	if sc.CbWrites {
+		for _, adv := range sc.Advances {
+			for _, f := range writes {
+				for _, n := range []string{nDeliver, nDrop} {
+					ops = append(ops, step{File: f, Notify: n, Adv: adv})
+					for _, cb := range []string{fWriteA, fWriteB} {
+						for _, cn := range []string{nDeliver, nDrop} {
+							ops = append(ops, step{File: f, Notify: n, Adv: adv, Cb: cb, CbNotify: cn})
+						}
+					}
+				}
+			}
+			ops = append(ops, step{File: fNone, Notify: nNone, Adv: adv})
 		}
 		return ops
 	}
@@ -177,8 +207,26 @@ func runHistory(t *testing.T, sc scenario, h []step) (out bfs.Outcome) {
 			cur = &fakeWatcher{ev: make(chan fsnotify.Event, 8), er: make(chan error, 2)}
 			return cur, nil
 		}
+		lastChange := time.Duration(0)
+		var armed, armedNotify string
+		var sendEvent func(fsnotify.Event)
 		cb := func() error {
 			calls = append(calls, cbCall{time.Since(start), readContent(path)})
+			if armed != "" { // the file changes while this evaluation is in progress
+				c := "A"
+				if armed == fWriteB {
+					c = "B"
+				}
+				before := readContent(path)
+				_ = os.WriteFile(path, []byte(c), 0o600)
+				if c != before {
+					lastChange = time.Since(start)
+				}
+				if armedNotify == nDeliver {
+					sendEvent(fsnotify.Event{Name: path, Op: fsnotify.Write})
+				}
+				armed = ""
+			}
 			if sc.CbErr {
 				return Reject("invalid")
 			}
@@ -199,9 +247,9 @@ func runHistory(t *testing.T, sc scenario, h []step) (out bfs.Outcome) {
 			default:
 			}
 		}
+		sendEvent = send
 		fileEvent := func(op fsnotify.Op) fsnotify.Event { return fsnotify.Event{Name: path, Op: op} }
 
-		lastChange := time.Duration(0)
 		var delayed []fsnotify.Event
 		for _, s := range h {
 			before := readContent(path)
@@ -237,6 +285,9 @@ func runHistory(t *testing.T, sc scenario, h []step) (out bfs.Outcome) {
 				send(d)
 			}
 			delayed = nil
+			if s.Cb != "" {
+				armed, armedNotify = s.Cb, s.CbNotify
+			}
 			switch s.Recreate {
 			case "fail1":
 				failLeft = 1
@@ -264,6 +315,10 @@ func runHistory(t *testing.T, sc scenario, h []step) (out bfs.Outcome) {
 				if cur != nil && !cur.closed {
 					close(cur.ev)
 				}
+			case nErrClosed:
+				if cur != nil && !cur.closed {
+					close(cur.er)
+				}
 			case nDirGone:
 				send(fsnotify.Event{Name: dir, Op: fsnotify.Remove})
 			}
@@ -278,6 +333,12 @@ func runHistory(t *testing.T, sc scenario, h []step) (out bfs.Outcome) {
 		// settle: reconcile interval + debounce + eps
 		time.Sleep((tickMs + debounceMs + 1) * time.Millisecond)
 		synctest.Wait()
+		// a callback that ran during the settle period may itself have changed the file (armed
+		// one-shot action): the bound counts from that change
+		for time.Since(start) <= lastChange+(tickMs+debounceMs)*time.Millisecond {
+			time.Sleep(lastChange + (tickMs+debounceMs+1)*time.Millisecond - time.Since(start))
+			synctest.Wait()
+		}
 		final := readContent(path)
 		cancel()
 		synctest.Wait()
@@ -336,6 +397,7 @@ var scenarios = []scenario{
 	{Name: "callback-rejects", Initial: "A", CbErr: true, Advances: []int{1, debounceMs - 1, tickMs + 1}},
 	{Name: "atomic-replace", Initial: "A", Replace: true, Advances: []int{1, debounceMs - 1, tickMs + 1}},
 	{Name: "watcher-dropped", Initial: "A", Faults: true, Advances: []int{1, debounceMs + 1, tickMs + 1}},
+	{Name: "changed-during-callback", Initial: "A", CbWrites: true, Advances: []int{1, debounceMs + 1, tickMs + 1}},
 }
 
 func TestVerif(t *testing.T) {
